@@ -308,13 +308,23 @@ theorem equivalent_eq (p q : Path) : pathSetRules_Equivalent p q = PathSet.equiv
 theorem sameRules_eq (o : RulesImpl) : pathSetRules_SameRules o = .ok (decide (o = .pathSetRules)) := by
   cases o <;> rfl
 
-/-- the `set.Rules[Path]` the source defines, as a `Rules Path` of the set model: the hand-written `pathRules` -/
-theorem rules_eq :
-    ({ hash := fun p => match pathSetRules_Hash p with | .ok h => h | _ => 0,
-       equiv := fun p q => match pathSetRules_Equivalent p q with | .ok b => b | _ => false } : Rules Path) =
-      PathSet.pathRules := by
-  simp only [PathSet.pathRules, hash_eq, equivalent_eq]
+/-- the `set.Rules[Path]` the source defines (`Hash`, `Equivalent` as translated), as a `Rules Path` of the set
+model; a panicking comparison cannot be expressed in `Rules` (as in `PathSet.pathRules`) -/
+def genRules : Rules Path :=
+  { hash := fun p => match pathSetRules_Hash p with | .ok h => h | _ => 0,
+    equiv := fun p q => match pathSetRules_Equivalent p q with | .ok b => b | _ => false }
+
+/-- …and on paths with known number / string keys -/
+def genGoodRules : Rules PathSet.GoodPath :=
+  { hash := fun p => genRules.hash p.1, equiv := fun p q => genRules.equiv p.1 q.1 }
+
+/-- …is the hand-written `pathRules` -/
+theorem genRules_eq : genRules = PathSet.pathRules := by
+  simp only [genRules, PathSet.pathRules, hash_eq, equivalent_eq]
   rfl
+
+theorem genGoodRules_eq : genGoodRules = PathSet.goodRules := by
+  simp only [genGoodRules, PathSet.goodRules, genRules_eq]
 
 end PathFnsTie
 end CtyModel
